@@ -412,6 +412,16 @@ def const_value(node) -> tuple[str, str]:
             vv, vt = const_value(v)
             items.append(f"({kv}, {vv})")
         return "[" + "; ".join(items) + "]", f"list ({kt} * {vt})"
+    if isinstance(node, ast.Attribute) and isinstance(node.value, ast.Name):
+        # enum member `SomeEnum.NAME` -> its member name (a string)
+        return json.dumps(node.attr), "string"
+    if isinstance(node, ast.Set) and node.elts:
+        # set literal of constants of one type -> sorted list (membership is all a set offers)
+        items = [const_value(e) for e in node.elts]
+        types = {t for _, t in items}
+        if len(types) != 1:
+            fail(node, "set literal with mixed element types")
+        return "[" + "; ".join(sorted(v for v, _ in items)) + "]", f"list {types.pop()}"
     fail(node, f"unsupported constant {ast.unparse(node)}")
 
 
